@@ -1499,6 +1499,11 @@ private def crashedWith (o : Walk.Out (Walk.Tab × Walk.Irs)) (e : String) : Boo
   | .stop (.crash x) _ => x == e
   | _ => false
 
+private def endedFatal (o : Walk.Out (Walk.Tab × Walk.Irs)) : Bool :=
+  match o with
+  | .stop .fatal _ => true
+  | _ => false
+
 private def finished (o : Walk.Out (Walk.Tab × Walk.Irs)) : Bool :=
   match o with
   | .ok _ _ => true
@@ -1523,11 +1528,12 @@ theorem C13_star_symlink :
 
 /-- Before 58a9012 the star-expansion entered `Import.origin`, the FULLY resolved path: the same module
 was analysed under a path from which no module name can be derived — its first relative import ended
-the run in `ValueError` — although followed as an ordinary import it was analysed under the path as
+the run (in a bare `ValueError` then; since c5833ef that site is a `fatal`, which is how the model of the
+current visitor ends it) — although followed as an ordinary import it was analysed under the path as
 spelled. -/
 theorem C13_cex_star_symlink_before_58a9012 :
     starBaseBefore_58a9012 lnkEnv (lnkM resolveSite) [pkg, sApi] = none
-    ∧ crashedWith (Walk.runBefore_58a9012 (lnkProj true) 30 (lnkTarget true)) "ValueError" = true
+    ∧ endedFatal (Walk.runBefore_58a9012 (lnkProj true) 30 (lnkTarget true)) = true
     ∧ finished (Walk.runBefore_58a9012 (lnkProj false) 30 (lnkTarget false)) = true := by
   decide
 
